@@ -19,7 +19,7 @@ PROPS = {
                 gens=[(ALL_FIXED, "random", 1.0), (GROUPS, "random", 0.4), (CONC, "stuck", 0.3),
                       (["join", "try_join", "merge", "zip", "race", "chain"], "big", 0.05)],
                 assumptions=COMMON_ASSUME),
-    "C02": dict(monitor="C02", proj="C02", cfgs=ALL3, quick=900, thorough=12000,
+    "C02": dict(monitor="C02", proj="C02", modules=["C02a", "C02b"], cfgs=ALL3, quick=900, thorough=12000,
                 gens=[(ALL_FIXED, "random", 1.0), (GROUPS, "random", 0.4), (ALL_FIXED + GROUPS, "panic", 0.5),
                       (["join", "try_join", "race_ok", "zip"], "big", 0.05)],
                 assumptions=COMMON_ASSUME + ["memory effects of unsafe code are outside the model; the model "
@@ -38,7 +38,7 @@ PROPS = {
                 gens=[(["join"], "random", 1.0), (["join"], "stuck", 0.3), (["join"], "panic", 0.2),
                       (["join"], "big", 0.08)],
                 assumptions=COMMON_ASSUME),
-    "C05": dict(monitor="C05", proj="FUN", cfgs=ALL3, quick=1500, thorough=20000,
+    "C05": dict(monitors=["C05", "C02"], monitor="C05", proj="FUN+C02", modules=["C05", "C02a"], cfgs=ALL3, quick=1500, thorough=20000,
                 gens=[(["try_join"], "random", 1.0), (["try_join"], "errs", 0.6), (["try_join"], "stuck", 0.2),
                       (["try_join"], "panic", 0.2), (["try_join"], "big", 0.08)],
                 assumptions=COMMON_ASSUME),
@@ -60,7 +60,7 @@ PROPS = {
                 gens=[(["merge"], "random", 1.0), (["merge"], "fair", 0.4), (["merge"], "stuck", 0.2),
                       (["merge"], "panic", 0.2), (["merge"], "big", 0.08)],
                 assumptions=COMMON_ASSUME),
-    "C09": dict(monitors=["C09", "C02"], monitor="C09", proj="FUN+C02", cfgs=ALL3, quick=2500, thorough=30000,
+    "C09": dict(monitors=["C09", "C02"], monitor="C09", proj="FUN+C02", modules=["C09", "C02a"], cfgs=ALL3, quick=2500, thorough=30000,
                 gens=[(["zip"], "random", 1.0), (["zip"], "fair", 0.4), (["zip"], "stuck", 0.2),
                       (["zip"], "panic", 0.2), (["zip"], "big", 0.08)],
                 assumptions=COMMON_ASSUME + ["zip over zero inputs is outside C09"]),
